@@ -48,6 +48,7 @@ thread_local! {
     static TICKS:  Cell<u64> = const { Cell::new(0) };
     static BUDGET: Cell<u64> = const { Cell::new(0) };          // 0 = unlimited
     static TRACE_TICKS: Cell<bool> = const { Cell::new(false) };
+    static TRACE_EVENTS: Cell<bool> = const { Cell::new(false) };
     static SINK: RefCell<Option<Vec<Event>>> = const { RefCell::new(None) };
 }
 
@@ -97,6 +98,7 @@ pub fn enabled() -> bool {
 
 /// `f` is only evaluated when a sink is installed
 pub fn emit<F: FnOnce() -> Event>(f: F) {
+    if !TRACE_EVENTS.with(|c| c.get()) { return }
     SINK.with(|s| {
         let mut s = s.borrow_mut();
         if let Some(v) = s.as_mut() { v.push(f()) }
@@ -127,12 +129,14 @@ pub fn record<T, F: FnOnce() -> T + std::panic::UnwindSafe>(budget: u64, events:
     TICKS.with(|c| c.set(0));
     BUDGET.with(|c| c.set(budget));
     TRACE_TICKS.with(|c| c.set(ticks));
+    TRACE_EVENTS.with(|c| c.set(events));
     SINK.with(|s| *s.borrow_mut() = if events || ticks { Some(Vec::new()) } else { None });
     let result = std::panic::catch_unwind(f);
     let events = SINK.with(|s| s.borrow_mut().take()).unwrap_or_default();
     let ticks = TICKS.with(|c| c.get());
     BUDGET.with(|c| c.set(0));
     TRACE_TICKS.with(|c| c.set(false));
+    TRACE_EVENTS.with(|c| c.set(false));
     Recorded { result, events, ticks }
 }
 
